@@ -173,5 +173,9 @@ func (t *table[E]) resultsTable() [][]frontend.Variable {
 }
 
 func (t *table[E]) commit(api frontend.API) error {
+	if len(t.results) == 0 {
+		// the table was never queried: there is nothing to prove (and the argument needs at least one query)
+		return nil
+	}
 	return logderivarg.Build(api, t.entryTable(), t.resultsTable())
 }
